@@ -71,9 +71,9 @@ func checkTV(c tvCase) harness.Outcome {
 
 var tvFacet = harness.Register(&harness.Facet[tvCase]{
 	Name:     "accessors",
-	Rule:     "rapid: time value v for new Date(v) drawn uniformly in ±8.64e15 (25%), at day/month/year boundaries ±1..2 ms of 42 listed years incl. −271821, 0, 1582, 1900, 1970, 2038, 9999, 10000, 275760 (20%), Feb 28/29/Mar 1 of arbitrary years rounded to multiples of 4/100/400 (10%), ±8.64e15 ± {0,1,2,1000,1 day} (5%), non-integral (10%), NaN/±Inf/−0/huge (5%), ±2000 ms around the epoch (5%), uniform in 1970–2038 (20%); all 22 accessors/formatters (UTC and local, valueOf, getYear, getTimezoneOffset, toISOString, toJSON) plus Date.parse(toISOString()) and ToNumber are compared with 15.9.1.2–15.9.1.15 on TimeClip(v); non-trivial = the instant is outside 1970–2038, within 1 ms of a day boundary, invalid, or v is not already a time value; distinct by v",
+	Rule:     "rapid: time value v for new Date(v) drawn uniformly in ±8.64e15 (25%), at day/month/year boundaries ±1..2 ms of 42 listed years incl. −271821, 0, 1582, 1900, 1970, 2038, 9999, 10000, 275760 (20%), Feb 28/29/Mar 1 of arbitrary years rounded to multiples of 4/100/400 (10%), ±8.64e15 ± {0,1,2,1000,1 day} (5%), non-integral (10%), NaN/±Inf/−0/huge (5%), ±2000 ms around the epoch (5%), uniform in 1970–2038 (20%); all 22 accessors/formatters (UTC and local, valueOf, getYear, getTimezoneOffset, toISOString, toJSON) plus Date.parse(toISOString()) and ToNumber are compared with 15.9.1.2–15.9.1.15 on TimeClip(v); non-trivial = the instant is outside 1970–2038, within 1 ms of a day boundary, invalid, or v is not already a time value; distinct by v Every case also draws the process-local zone (time.Local): UTC (50%) or a fixed offset of +05:30, −08:00, +12:45, −03:30, +01:00, −12:00, +14:00; UTC accessors, toISOString/toJSON, Date.UTC, setUTC*, setTime, Date.parse and getTime must not depend on it, local accessors/constructor/setters/getTimezoneOffset must equal the model with LocalTZA = offset (no DST); a non-UTC zone makes a case non-trivial.",
 	Quick:    15000,
-	Thorough: 120000,
+	Thorough: 100000,
 	Gen:      func(t *rapid.T) tvCase { return tvCase{TV: harness.NumLit(genTV(t)), TZ: genTZ(t)} },
 	Check:    checkTV,
 })
@@ -83,7 +83,7 @@ func TestAccessors(t *testing.T) { tvFacet.Run(t) }
 // Every first-of-month of every listed year, ±1 ms (finite enumeration; complements the random boundary draw).
 var tvTable = harness.Register(&harness.Facet[tvCase]{
 	Name:  "accessors-boundary-table",
-	Rule:  "complete product: 42 listed years × 12 months × {first instant −1 ms, first instant, +1 ms} plus Feb 28/29 and the range limits ±8.64e15 ± {0,1}; same comparison as facet accessors; non-trivial by the same rule; distinct by v",
+	Rule:  "complete product: 42 listed years × 12 months × {first instant −1 ms, first instant, +1 ms} plus Feb 28/29 and the range limits ±8.64e15 ± {0,1}, each under time.Local = UTC, +05:30 and −08:00; same comparison as facet accessors; non-trivial by the same rule; distinct by v",
 	Check: checkTV,
 })
 
@@ -254,9 +254,9 @@ func checkFields(c fieldsCase) harness.Outcome {
 
 var fieldsFacet = harness.Register(&harness.Facet[fieldsCase]{
 	Name:     "fields",
-	Rule:     "rapid: Date.UTC(...) or new Date(...) [time.Local = UTC] with 2–8 arguments; each component is typical for its position (35%), up to 60 outside its natural range on either side (20%), uniform in ±1e6 (15%), fractional (12%), NaN/±Inf/−0 (8%), undefined/null/booleans/numeric strings (5%), calendar units such as 146097 (5%); years additionally from 0…99, corners of the two-digit window (−0.5, 99.5, 99.9999, 100 …) and the listed boundary years; in 7% of tuples one component alone is beyond ±1e6 (up to the magnitude that spans the ES5 range by itself, or 1e7…1e31); result compared with TimeClip(MakeDate(MakeDay(yr,m,dt),MakeTime(h,min,s,ms))) — Date.UTC by value, the constructor through the full accessor snapshot; non-trivial = some component is outside its natural range, negative zero, fractional, non-finite or not a number, or the result is outside 1970–2038 / on a day boundary; distinct by (form, arguments)",
+	Rule:     "rapid: Date.UTC(...) or new Date(...) [time.Local = UTC] with 2–8 arguments; each component is typical for its position (35%), up to 60 outside its natural range on either side (20%), uniform in ±1e6 (15%), fractional (12%), NaN/±Inf/−0 (8%), undefined/null/booleans/numeric strings (5%), calendar units such as 146097 (5%); years additionally from 0…99, corners of the two-digit window (−0.5, 99.5, 99.9999, 100 …) and the listed boundary years; in 7% of tuples one component alone is beyond ±1e6 (up to the magnitude that spans the ES5 range by itself, or 1e7…1e31); result compared with TimeClip(MakeDate(MakeDay(yr,m,dt),MakeTime(h,min,s,ms))) — Date.UTC by value, the constructor through the full accessor snapshot; non-trivial = some component is outside its natural range, negative zero, fractional, non-finite or not a number, or the result is outside 1970–2038 / on a day boundary; distinct by (form, arguments) Every case also draws the process-local zone (time.Local): UTC (50%) or a fixed offset of +05:30, −08:00, +12:45, −03:30, +01:00, −12:00, +14:00; UTC accessors, toISOString/toJSON, Date.UTC, setUTC*, setTime, Date.parse and getTime must not depend on it, local accessors/constructor/setters/getTimezoneOffset must equal the model with LocalTZA = offset (no DST); a non-UTC zone makes a case non-trivial.",
 	Quick:    15000,
-	Thorough: 120000,
+	Thorough: 100000,
 	Gen: func(t *rapid.T) fieldsCase {
 		form := pick(t, "form", []string{"UTC", "UTC", "new"})
 		n := pick(t, "nargs", []int{2, 2, 3, 3, 3, 4, 5, 6, 7, 7, 7, 8})
@@ -460,9 +460,9 @@ func genOp(t *rapid.T) histOp {
 
 var histFacet = harness.Register(&harness.Facet[histCase]{
 	Name:     "setter-histories",
-	Rule:     "rapid: a date created from a time value of the accessor pool (60%), NaN (15%) or 2–7 components (25%), then 1–4 calls of setUTC{Milliseconds,Seconds,Minutes,Hours,Date,Month,FullYear} (58%), their local-time twins [time.Local = UTC] (30%), setTime (8%), setYear (4%) with 0…max+1 arguments from the component pool of facet fields; after every call the return value and getTime() are compared with the 15.9.5.27–41 / B.2.5 algorithm applied to the model's current time value (argument defaults from the current value, NaN propagation, setFullYear on an invalid date starts from +0, TimeClip), and the full accessor snapshot after the last call; non-trivial = some instant of the history is invalid, outside 1970–2038 or on a day boundary, or some argument is outside its natural range / fractional / non-finite / surplus; distinct by the whole history",
+	Rule:     "rapid: a date created from a time value of the accessor pool (60%), NaN (15%) or 2–7 components (25%), then 1–4 calls of setUTC{Milliseconds,Seconds,Minutes,Hours,Date,Month,FullYear} (58%), their local-time twins [time.Local = UTC] (30%), setTime (8%), setYear (4%) with 0…max+1 arguments from the component pool of facet fields; after every call the return value and getTime() are compared with the 15.9.5.27–41 / B.2.5 algorithm applied to the model's current time value (argument defaults from the current value, NaN propagation, setFullYear on an invalid date starts from +0, TimeClip), and the full accessor snapshot after the last call; non-trivial = some instant of the history is invalid, outside 1970–2038 or on a day boundary, or some argument is outside its natural range / fractional / non-finite / surplus; distinct by the whole history Every case also draws the process-local zone (time.Local): UTC (50%) or a fixed offset of +05:30, −08:00, +12:45, −03:30, +01:00, −12:00, +14:00; UTC accessors, toISOString/toJSON, Date.UTC, setUTC*, setTime, Date.parse and getTime must not depend on it, local accessors/constructor/setters/getTimezoneOffset must equal the model with LocalTZA = offset (no DST); a non-UTC zone makes a case non-trivial.",
 	Quick:    15000,
-	Thorough: 120000,
+	Thorough: 100000,
 	Gen: func(t *rapid.T) histCase {
 		c := histCase{TZ: genTZ(t)}
 		switch k := int(uniInt(t, "initkind", int64(0), int64(19))); {
@@ -543,9 +543,9 @@ var daysInMonth = [12]int64{31, 28, 31, 30, 31, 30, 31, 31, 30, 31, 30, 31}
 
 var isoFacet = harness.Register(&harness.Facet[isoCase]{
 	Name:     "iso-parse",
-	Rule:     "rapid: a legal instance of the 15.9.1.15 format — year as YYYY (uniform 0…9999 or a listed boundary year) or expanded ±YYYYYY (20%, −271820…275759), optionally -MM and -DD (existing calendar days only), optionally THH:mm, THH:mm:ss or THH:mm:ss.sss with Z or a ±HH:mm offset (always explicit), 24:00:00 as end of day (4%); Date.parse(s) and new Date(s).getTime() are compared with the denoted time value; non-trivial = not the full toISOString layout, or outside 1970–2038 / on a day boundary; distinct by the string. (Strings without a zone designator after a time, illegal element values and non-ISO strings are implementation-defined or disputed and never generated.)",
+	Rule:     "rapid: a legal instance of the 15.9.1.15 format — year as YYYY (uniform 0…9999 or a listed boundary year) or expanded ±YYYYYY (20%, −271820…275759), optionally -MM and -DD (existing calendar days only), optionally THH:mm, THH:mm:ss or THH:mm:ss.sss with Z or a ±HH:mm offset (always explicit), 24:00:00 as end of day (4%); Date.parse(s) and new Date(s).getTime() are compared with the denoted time value; non-trivial = not the full toISOString layout, or outside 1970–2038 / on a day boundary; distinct by the string. (Strings without a zone designator after a time, illegal element values and non-ISO strings are implementation-defined or disputed and never generated.) Every case also draws the process-local zone (time.Local): UTC (50%) or a fixed offset of +05:30, −08:00, +12:45, −03:30, +01:00, −12:00, +14:00; UTC accessors, toISOString/toJSON, Date.UTC, setUTC*, setTime, Date.parse and getTime must not depend on it, local accessors/constructor/setters/getTimezoneOffset must equal the model with LocalTZA = offset (no DST); a non-UTC zone makes a case non-trivial.",
 	Quick:    6000,
-	Thorough: 40000,
+	Thorough: 30000,
 	Gen: func(t *rapid.T) isoCase {
 		var y int64
 		expanded := uni(t, "expanded", 5) == 0
